@@ -1,6 +1,7 @@
 """C02 implementation driver: runs the real ProtocolHub.
 
-stdin: {"wrapper": [[v, reg_cid, name, {attr: jval}], ...],
+stdin: {"sequence": [[v, [{"op": "parse", "data": hex} | {"op": "factory", "dom": d, "factory": f, "args": {...}}, ...]], ...],
+        "wrapper": [[v, reg_cid, name, {attr: jval}], ...],
         "factory": [[v, dom, fname, {param: argspec|null}, {param: [projection keys]}], ...],
         "parse":   [[v, hex], ...]}
 jval     = {"s": {"i": int}|{"b": bool}|{"x": hex}} | {"list": [sval...]} | {"recs": [[[field, sval]...]...]}
@@ -286,9 +287,61 @@ def do_parse(v, hx):
     return {"decoded": dec, "obs": observe(v, data)}
 
 
+def read_obj(msg):
+    """fields and serialisation of a message object held by the caller"""
+    if msg is None:
+        return {"none": 1}
+    out = {"cls": cid_of(type(msg)), "fields": {}}
+    if isinstance(msg, PbMessageWrapper):
+        fields = object.__getattribute__(msg, "_PbMessageWrapper__pb_fields")
+        for name in sorted(fields):
+            try:
+                out["fields"][name] = jval_of(getattr(msg, name))
+            except Exception as e:  # noqa
+                out["fields"][name] = {"exc": type(e).__name__}
+    elif hasattr(msg, "result_code"):
+        out["result_code"] = int(msg.result_code)
+    try:
+        out["wire"] = msg.serialize().hex()
+    except Exception as e:  # noqa
+        out["wire"] = {"exc": type(e).__name__}
+    return out
+
+
+def do_sequence(v, steps):
+    """several parse / create calls on ONE fresh hub instance; every result is kept and read twice:
+    right after its call and again after the whole sequence"""
+    h = ProtocolHub(v)
+    kept, first, decoded = [], [], []
+    for st in steps:
+        dec = None
+        if st["op"] == "parse":
+            m = Message()
+            try:
+                m.ParseFromString(bytes.fromhex(st["data"]))
+                dec = list(abstract(m))
+            except DecodeError:
+                dec = "DecodeError"
+        decoded.append(dec)
+        try:
+            if st["op"] == "parse":
+                obj = h.parse(bytes.fromhex(st["data"]))
+            else:
+                obj = getattr(getattr(h, st["dom"]), st["factory"])(**{p: build_arg(a) for p, a in st["args"].items()})
+        except Exception as e:  # noqa
+            kept.append(None)
+            first.append({"exc": type(e).__name__})
+            continue
+        kept.append(obj)
+        first.append(read_obj(obj))
+    last = [f if "exc" in f and "cls" not in f else read_obj(o) for f, o in zip(first, kept)]
+    return {"first": first, "last": last, "decoded": decoded}
+
+
 def main():
     req = json.load(sys.stdin)
-    res = {"wrapper": [do_wrapper(*c) for c in req.get("wrapper", [])],
+    res = {"sequence": [do_sequence(*c) for c in req.get("sequence", [])],
+           "wrapper": [do_wrapper(*c) for c in req.get("wrapper", [])],
            "factory": [do_factory(*c) for c in req.get("factory", [])],
            "parse": [do_parse(*c) for c in req.get("parse", [])]}
     print("RESULT " + json.dumps(res))
